@@ -438,6 +438,8 @@ impl CommandBuilder<'_> {
             eprintln!("{command:?}");
         }
 
+        #[cfg(feature = "verif_hooks")]
+        let mut command = crate::verif_hooks::SimCommand::new(command);
         match &self.options.action {
             ExecAction::Command(_) => match command.status() {
                 Ok(status) => {
@@ -1025,6 +1027,8 @@ fn do_xargs(args: &[&str]) -> Result<CommandResult, XargsError> {
     } else {
         Box::new(io::stdin())
     };
+    #[cfg(feature = "verif_hooks")]
+    let args_file = crate::verif_hooks::replace_input(args_file);
 
     let args: Box<dyn ArgumentReader> = if let Some(delimiter) = delimiter {
         Box::new(ByteDelimitedArgumentReader::new(args_file, delimiter))
